@@ -16,7 +16,7 @@ def py_arg(a):
     return 'py::arg("' + a.name + '")' + ('' if a.default is None else ' = ' + a.default)
 
 
-@spec(rec=True, ret='str', reads=('name', 'default', 'SEQ'))
+@spec(rec=True, ret='str', reads='tree')
 def py_args_join(args, k):
     """the first k keyword arguments separated by ', '"""
     if k <= 0:
@@ -54,7 +54,7 @@ def ctor_binding(c):
     return IND + '.def(py::init<' + args_types(c.args) + '>()' + py_args_names(c.args) + ')'
 
 
-@spec(rec=True, ret='str', reads=('SEQ',))
+@spec(rec=True, ret='str', reads='tree')
 def ctors_fold(ctors, k):
     if k <= 0:
         return ''
@@ -109,7 +109,7 @@ def dunder_binding(m, cpp_class, prefix, suffix):
             + '}' + py_args_names(m.args) + ')' + suffix)
 
 
-@spec(rec=True, ret='str', reads=('SEQ',))
+@spec(rec=True, ret='str', reads='tree')
 def dunders_fold(ms, cpp_class, prefix, suffix, k):
     if k <= 0:
         return ''
@@ -122,7 +122,7 @@ def property_binding(p, cpp_class, prefix):
             + cpp_class + '::' + p.name + ')')
 
 
-@spec(rec=True, ret='str', reads=('SEQ',))
+@spec(rec=True, ret='str', reads='tree')
 def properties_fold(ps, cpp_class, prefix, k):
     if k <= 0:
         return ''
@@ -137,7 +137,7 @@ def operator_binding(op, cpp_class, prefix):
                         else prefix + '.def(py::self ' + op.operator + ' py::self)')))
 
 
-@spec(rec=True, ret='str', reads=('SEQ',))
+@spec(rec=True, ret='str', reads='tree')
 def operators_fold(ops, cpp_class, prefix, k):
     if k <= 0:
         return ''
@@ -151,7 +151,7 @@ def variable_binding(namespace, module_var, v, prefix):
             + ((namespace + v.name) if v.default is None else v.default) + ';')
 
 
-@spec(rec=True, ret='str', reads=('SEQ',))
+@spec(rec=True, ret='str', reads='tree')
 def enumerators_fold(es, cpp_class, prefix, k):
     if k <= 0:
         return ''
@@ -183,7 +183,7 @@ def method_binding(w, m, cpp_class, prefix, suffix, method_suffix, doc):
     return plain_method_binding(m, cpp_class, prefix, suffix, method_suffix, doc)
 
 
-@spec(rec=True, ret='str', reads=('SEQ',))
+@spec(rec=True, ret='str', reads='tree')
 def methods_fold(w, ms, cpp_class, prefix, suffix, k):
     """bindings of the first k methods; gtsam::Values.insert(size_t, X) additionally gets an insert_<name> alias"""
     if k <= 0:
@@ -206,7 +206,7 @@ def function_binding(f, namespace, prefix, suffix):
             + '(' + args_names(f.args) + ');}' + py_args_names(f.args) + ')' + suffix)
 
 
-@spec(rec=True, ret='str', reads=('SEQ',))
+@spec(rec=True, ret='str', reads='tree')
 def functions_fold(fs, namespace, prefix, suffix, k):
     if k <= 0:
         return ''
@@ -222,3 +222,49 @@ def module_var(w, namespaces):
 def qualified(name, namespaces):
     """C++ qualification of name under a namespace path whose first component is the empty global namespace"""
     return ('::'.join(namespaces[(1 if namespaces[0] == '' else 0):] + [name])) if len(namespaces) > 0 else name
+
+
+@spec(rec=True, ret='str', reads='tree')
+def enums_fold(es, cpp_class, module, prefix, k):
+    """class-scoped enums: each bound under the class's C++ name, registered on the class's Python object"""
+    if k <= 0:
+        return ''
+    return (enums_fold(es, cpp_class, module, prefix, k - 1) + '\n'
+            + enum_binding(es[k - 1], cpp_class + '::' + enum_cpp(es[k - 1]), module, prefix))
+
+PFX = '\n' + ' ' * 8        # default indentation of member bindings
+
+
+@spec()
+def class_parent_text(c):
+    """`Base, ` in the py::class_ template arguments (nothing without a base class)"""
+    return (tn_cpp(c.parent_class) + ', ') if not isinstance(c.parent_class, str) else ''
+
+
+@spec()
+def class_declaration(w, c):
+    """py::class_<Cpp, [Base, ]std::shared_ptr<Cpp>>(module, "Name"): as a named object when the class has enums"""
+    return (('\n    py::class_<' + ic_cpp(c) + ', ' + class_parent_text(c) + 'std::shared_ptr<' + ic_cpp(c) + '>> '
+             + c.name.lower() + '(' + module_var(w, [''] + ns_chain(c.parent)) + ', "' + c.name + '");\n    ' + c.name.lower())
+            if len(c.enums) > 0 else
+            ('\n    py::class_<' + ic_cpp(c) + ', ' + class_parent_text(c) + 'std::shared_ptr<' + ic_cpp(c) + '>>('
+             + module_var(w, [''] + ns_chain(c.parent)) + ', "' + c.name + '")'))
+
+
+@spec()
+def class_binding(w, c):
+    """the class and its members in the fixed order ctors, methods, statics, dunders, properties, operators"""
+    return ('' if ic_cpp(c) in w.ignore_classes else
+            class_declaration(w, c) + ctors_fold(c.ctors, len(c.ctors))
+            + methods_fold(w, c.methods, ic_cpp(c), PFX, '', len(c.methods))
+            + methods_fold(w, c.static_methods, ic_cpp(c), PFX, '', len(c.static_methods))
+            + dunders_fold(c.dunder_methods, ic_cpp(c), PFX, '', len(c.dunder_methods))
+            + properties_fold(c.properties, ic_cpp(c), PFX, len(c.properties))
+            + operators_fold(c.operators, ic_cpp(c), PFX, len(c.operators)) + ';\n')
+
+
+@spec()
+def declaration_binding(w, d):
+    return ('' if idecl_cpp(d) in w.ignore_classes else
+            '\n    py::class_<' + idecl_cpp(d) + ', std::shared_ptr<' + idecl_cpp(d) + '>>('
+            + module_var(w, [''] + ns_chain(d.parent)) + ', "' + d.name + '");')
